@@ -14,6 +14,7 @@ FIXED = [
     ("L", ["C11"], "b3e5adc", "assigning an invalid space formula deleted the old formula first"),
     ("EE", ["C11"], "162d3ce", "`cells[k] = None` where None is not allowed raised after the existing input and its dependents had been cleared"),
     ("NEWREF2", ["C12", "C11"], "580d5b9", "a reference named like a child space of a sub space was accepted when a model-level reference of that name exists: the sub space got a derived reference and a child space of one name"),
+    ("FF", ["C11"], "904f5dc", "add_bases/remove_bases refused during re-derivation (relative reference out of scope) left the members derived so far in place (`A.set_ref('r', Z, 'relative'); X.add_bases(A)` -> X keeps derived c and r)"),
     ("T", ["C12"], "713ee47", "mxsys._check_sanity() failed after `model.r = space` (model-level reference to a modelx object)"),
     ("Z", ["C12"], "a821d82", "mxsys._check_sanity() failed on a consistent model with same-named spaces at different levels (B.Ch and B.Gc.Ch)"),
     ("B", ["C03"], "ea50013", "redefining a base cells overwrote defined overrides and copies derived from an override in between"),
